@@ -31,6 +31,7 @@ var opCode = map[string]datatransfer.EventCode{
 // properties say, never of the FSM table).
 type spec struct {
 	acc, tf, rc, rf, ended, fin bool
+	ti                          bool // the local transport reported that the transfer was initiated
 }
 
 func (sp spec) String() string {
@@ -40,7 +41,7 @@ func (sp spec) String() string {
 		}
 		return '0'
 	}
-	return string([]byte{b(sp.acc), b(sp.tf), b(sp.rc), b(sp.rf), b(sp.ended), b(sp.fin)})
+	return string([]byte{b(sp.acc), b(sp.tf), b(sp.rc), b(sp.rf), b(sp.ended), b(sp.fin), b(sp.ti)})
 }
 
 func completingOrDone(s datatransfer.Status) bool {
@@ -194,6 +195,8 @@ func runClosure(x *mc.Cell, o closureOpts) {
 						switch op.Name {
 						case "Accept":
 							sp.acc = true
+						case "TransferInitiated":
+							sp.ti = true
 						case "FinishTransfer":
 							sp.tf = true
 						case "ResponderCompletes":
@@ -303,6 +306,25 @@ func runClosure(x *mc.Cell, o closureOpts) {
 									if after.Status != datatransfer.Finalizing || !after.RPaused {
 										viol("C03", fmt.Sprintf("R4;stay;op=%s;got=%s", op.Name, datatransfer.Statuses[after.Status]), "a responder awaiting finalization must stay in Finalizing (paused) until released")
 									}
+								}
+							}
+						}
+						// C07 (and C01's totals): while the channel is transferring - the local transport has initiated the transfer
+						// and has not finished it, nothing ended it, a responder is not in finalization - a block reported at a new
+						// position with a unique block is counted, whatever the counterparty has announced meanwhile
+						if o.roleConsist && sp.ti && !sp.tf && !sp.ended && !sp.fin && !wasTerminal {
+							switch op.Name {
+							case "DataReceivedNext":
+								if after.Received != before.Received+1 || after.RIdx != before.RIdx+1 {
+									viol("C07", "L1;transferring-block-not-counted;op="+op.Name+";status="+datatransfer.Statuses[before.Status], fmt.Sprintf("received %d->%d index %d->%d", before.Received, after.Received, before.RIdx, after.RIdx))
+								}
+							case "DataQueuedNext":
+								if after.Queued != before.Queued+1 || after.QIdx != before.QIdx+1 {
+									viol("C07", "L1;transferring-block-not-counted;op="+op.Name+";status="+datatransfer.Statuses[before.Status], fmt.Sprintf("queued %d->%d index %d->%d", before.Queued, after.Queued, before.QIdx, after.QIdx))
+								}
+							case "DataSentNext":
+								if after.Sent != before.Sent+1 || after.SIdx != before.SIdx+1 {
+									viol("C07", "L1;transferring-block-not-counted;op="+op.Name+";status="+datatransfer.Statuses[before.Status], fmt.Sprintf("sent %d->%d index %d->%d", before.Sent, after.Sent, before.SIdx, after.SIdx))
 								}
 							}
 						}
